@@ -7,13 +7,13 @@
 //	                            (holds the Async drainer inside a close callback). Deterministic; after every op the
 //	                            implementation is left to settle and its state is compared with the model's stable
 //	                            successor state.
-//	  O new | add | release <c> | close <c> | eof <c> | holdclose | relclose | stop | Q
+//	  O new | add | release <c> | close <c> | eof <c> | werr <c> | holdclose | relclose | stop | Q
 //	  R stop=<idle|run|ret> opens=<n> closes=<n> c<i>=<opening|live|closed|done>:<in table 0|1> ...
 //
 //	C <id> real kind=core|http mode=lt|et|etos pollers=<n> listeners=<n> iomod=<nb|blocking|mixed>
 //	                            real engine on loopback sockets, random activity, Stop/Shutdown under a watchdog,
 //	                            census of goroutines and descriptors before start vs after stop.
-//	  O start | activity conns=<n> dials=<n> backlog=<n> timers=<n> closers=<n> | stop | shutdown | Q
+//	  O start | activity conns=<n> dials=<n> backlog=<n> timers=<n> closers=<n> werr=<n> wsup=<n> | stop | shutdown | Q
 //	  R stop=<idle|run|ret> opens=<n> closes=<n>
 //
 // Direct oracles (implementation only):
@@ -47,6 +47,7 @@ import (
 	"github.com/lesismal/nbio"
 	"github.com/lesismal/nbio/logging"
 	"github.com/lesismal/nbio/nbhttp"
+	"github.com/lesismal/nbio/nbhttp/websocket"
 	"github.com/lesismal/nbio/vsys"
 )
 
@@ -91,7 +92,7 @@ func genSim(g *lp.Gen, id int) {
 			if held[c] {
 				continue
 			}
-			g.P("O %s %d", g.Pick("close", "close", "eof"), c)
+			g.P("O %s %d", g.Pick("close", "close", "eof", "werr"), c)
 			if !closed[c] && holdClose {
 				pendingCb++
 			}
@@ -176,7 +177,13 @@ func genReal(g *lp.Gen, id int) {
 	if kind == "core" {
 		dials = g.PickInt(0, 0, 2, 5)
 	}
-	g.P("O activity conns=%d dials=%d backlog=%d timers=%d closers=%d", conns, dials, g.PickInt(0, 1, 3), g.PickInt(0, 2, 5), g.PickInt(0, 0, 2, 6))
+	werr, wsup := 0, 0
+	if kind == "core" {
+		werr = g.PickInt(0, 1, 3)
+	} else {
+		wsup = g.PickInt(0, 1, 3)
+	}
+	g.P("O activity conns=%d dials=%d backlog=%d timers=%d closers=%d werr=%d wsup=%d", conns, dials, g.PickInt(0, 1, 3), g.PickInt(0, 2, 5), g.PickInt(0, 0, 2, 6), werr, wsup)
 	g.P("O %s", g.Pick("stop", "stop", "shutdown"))
 	g.P("Q")
 }
@@ -339,6 +346,17 @@ func runSim(e *lp.Exec, head string, ops []string) {
 			c := atoi(ow[2])
 			if c < len(s.conns) {
 				_ = s.conns[c].c.Close()
+			}
+		case ow[1] == "werr":
+			// the conn dies from a hard write error (the error branch of Conn.Write: closed = true, then teardown)
+			c := atoi(ow[2])
+			if c < len(s.conns) {
+				sc := s.conns[c]
+				if atomic.LoadInt32(&sc.added) == 1 {
+					sc.v.SetScript([]vsys.Ans{{Err: syscall.EPIPE}})
+					_, _ = sc.c.Write([]byte("x"))
+					sc.v.SetScript(nil)
+				}
 			}
 		case ow[1] == "eof":
 			c := atoi(ow[2])
@@ -538,7 +556,7 @@ func runReal(e *lp.Exec, head string, ops []string) {
 				addrs[i] = "127.0.0.1:0"
 			}
 			if r.kind == "core" {
-				g := nbio.NewEngine(nbio.Config{Network: "tcp", Addrs: addrs, NPoller: npoll, EpollMod: epollMod, EPOLLONESHOT: oneshot,
+				g := nbio.NewEngine(nbio.Config{Network: "tcp", Addrs: addrs, NPoller: npoll, EpollMod: epollMod, EPOLLONESHOT: oneshot, MaxWriteBufferSize: 8 << 20,
 					AsyncReadInPoller: mode == "et" && npoll%2 == 0})
 				g.OnOpen(func(c *nbio.Conn) {
 					atomic.AddInt32(&r.opens, 1)
@@ -556,6 +574,16 @@ func runReal(e *lp.Exec, head string, ops []string) {
 			} else {
 				mux := http.NewServeMux()
 				mux.HandleFunc("/", func(w http.ResponseWriter, q *http.Request) { _, _ = w.Write([]byte("ok")) })
+				up := websocket.NewUpgrader()
+				up.KeepaliveTime = 0
+				mux.HandleFunc("/ws", func(w http.ResponseWriter, q *http.Request) {
+					if iomod == "nb" {
+						_, _ = up.Upgrade(w, q, nil)
+					} else {
+						// blocking I/O mode: hand the upgraded conn over to the poller
+						_, _ = up.UpgradeAndTransferConnToPoller(w, q, nil)
+					}
+				})
 				im := nbhttp.IOModNonBlocking
 				switch iomod {
 				case "blocking":
@@ -565,6 +593,7 @@ func runReal(e *lp.Exec, head string, ops []string) {
 				}
 				he := nbhttp.NewEngine(nbhttp.Config{Network: "tcp", Addrs: addrs, NPoller: npoll, Handler: mux, IOMod: im,
 					MaxBlockingOnline: 4, EpollMod: epollMod, EPOLLONESHOT: oneshot, MessageHandlerPoolSize: 16})
+				up.Engine = he
 				he.OnOpen(func(c net.Conn) { atomic.AddInt32(&r.opens, 1) })
 				he.OnClose(func(c net.Conn, err error) { atomic.AddInt32(&r.closes, 1) })
 				if err := he.Start(); err != nil {
@@ -590,6 +619,7 @@ func runReal(e *lp.Exec, head string, ops []string) {
 			}
 		case ow[1] == "activity":
 			n, dials, backlog, timers, closers := atoi(field(ow, "conns")), atoi(field(ow, "dials")), atoi(field(ow, "backlog")), atoi(field(ow, "timers")), atoi(field(ow, "closers"))
+			werr, wsup := atoi(field(ow, "werr")), atoi(field(ow, "wsup"))
 			var wg sync.WaitGroup
 			for i := 0; i < n; i++ {
 				wg.Add(1)
@@ -607,6 +637,12 @@ func runReal(e *lp.Exec, head string, ops []string) {
 						buf := make([]byte, len(payload))
 						_ = c.SetReadDeadline(time.Now().Add(3 * time.Second))
 						_, _ = io.ReadFull(c, buf)
+					} else if i < wsup {
+						// a websocket upgrade (transferred to the poller when the engine serves in blocking mode)
+						fmt.Fprintf(c, "GET /ws HTTP/1.1\r\nHost: x\r\nUpgrade: websocket\r\nConnection: Upgrade\r\nSec-WebSocket-Key: MDEyMzQ1Njc4OWFiY2RlZg==\r\nSec-WebSocket-Version: 13\r\n\r\n")
+						buf := make([]byte, 4096)
+						_ = c.SetReadDeadline(time.Now().Add(3 * time.Second))
+						_, _ = c.Read(buf)
 					} else {
 						fmt.Fprintf(c, "GET / HTTP/1.1\r\nHost: x\r\n\r\n")
 						buf := make([]byte, 4096)
@@ -637,6 +673,13 @@ func runReal(e *lp.Exec, head string, ops []string) {
 				r.cmu.Unlock()
 				for i := 0; i < backlog && i < len(srv); i++ {
 					_, _ = srv[i].Write(bigp) // the client is not reading: a backlog stays queued
+				}
+				for i := 0; i < werr && backlog+i < len(srv); i++ {
+					// a hard write error before Stop: more than MaxWriteBufferSize ⇒ overflow ⇒ the conn is closed by Write
+					_, _ = srv[backlog+i].Write(make([]byte, 16<<20))
+				}
+				if werr > 0 {
+					time.Sleep(5 * time.Millisecond)
 				}
 				for i := 0; i < timers && i < len(srv); i++ {
 					c := srv[len(srv)-1-i]
@@ -726,6 +769,11 @@ func runReal(e *lp.Exec, head string, ops []string) {
 					e.Oracle("c18-hang", "class=unexplained Shutdown with a live context returned %v", err)
 				} else {
 					atomic.StoreInt32(&r.stopSt, 2)
+					if ow[1] == "shutdown" && r.httpE != nil {
+						if n := r.httpE.Online(); n != 0 {
+							e.Oracle("c18-close-count", "http engine: Shutdown returned nil with Online()=%d", n)
+						}
+					}
 				}
 			case <-time.After(10 * time.Second):
 				buf := make([]byte, 1<<16)
